@@ -120,14 +120,19 @@ def parse_texpr(e):
 
 def parse_arm(name, pat, code):
     items = parse_pattern(pat)
-    norm = ' '.join(code.split())
+    # layout-independent form: white space collapsed, no trailing comma before a closing bracket (the repetition `$($child,)+`
+    # keeps its comma), no space before a method call
+    norm = ' '.join(code.split()).replace('$($child,)+', '$($child@)+')
+    norm = re.sub(r',\s*([}\])])', r' \1', norm).replace('$($child@)+', '$($child,)+')
+    norm = re.sub(r'\s+\.', '.', norm)
+    norm = re.sub(r'\(\s+', '(', norm); norm = re.sub(r'\s+\)', ')', norm); norm = re.sub(r'\[\s+', '[', norm); norm = re.sub(r'\s+\]', ']', norm)
     lets = []
     # optional block form: { let a = $a; ... Scad { ... } }
     bm = re.fullmatch(r'\{ ((?:let \w+ = \$\w+; )+)(Scad \{.*\}) \}', norm)
     if bm:
         for lm in re.finditer(r'let (\w+) = \$(\w+); ', bm.group(1)): lets.append((lm.group(1), lm.group(2)))
         norm = bm.group(2)
-    m = re.fullmatch(r'Scad \{ op: ScadOp::(\w+)( \{(.*)\})?, children: (vec!\[\$\(\$child,\)\+\]|Vec::new\(\)), \}', norm)
+    m = re.fullmatch(r'Scad \{ op: ScadOp::(\w+)( \{(.*)\})?, children: (vec!\[\$\(\$child,\)\+\]|Vec::new\(\)) \}', norm)
     if not m: raise ParseError('%s: arm body is not a Scad struct literal: %s' % (name, norm[:200]))
     variant = m.group(1)
     fields = []
@@ -144,19 +149,63 @@ def parse_arm(name, pat, code):
     return {'macro': name, 'pattern': items, 'pattern_text': pat, 'variant': variant, 'fields': fields,
             'children': has_children, 'lets': lets}
 
+def skip_ws(s, i):
+    """index of the next character that is neither white space nor part of a // comment"""
+    while i < len(s):
+        if s[i].isspace(): i += 1
+        elif s.startswith('//', i):
+            j = s.find('\n', i); i = len(s) if j < 0 else j + 1
+        else: break
+    return i
+
+def match_close(s, i):
+    """index of the bracket closing the one at s[i]; string literals and // comments are skipped"""
+    pairs = {'(': ')', '[': ']', '{': '}'}
+    stack = []
+    k = i
+    while k < len(s):
+        c = s[k]
+        if c == '"':
+            k += 1
+            while k < len(s) and s[k] != '"':
+                k += 2 if s[k] == '\\' else 1
+        elif s.startswith('//', k):
+            j = s.find('\n', k); k = len(s) if j < 0 else j
+        elif c in pairs: stack.append(pairs[c])
+        elif c in ')]}':
+            if not stack or stack.pop() != c: raise ParseError('unbalanced brackets near %r' % s[max(0, k - 30):k + 10])
+            if not stack: return k
+        k += 1
+    raise ParseError('unclosed bracket at %r' % s[i:i + 40])
+
 def parse_all(repo):
     src = read_src(repo)
     end = src.index('#[cfg(test)]') if '#[cfg(test)]' in src else len(src)
     src0 = src[:end]
     arms = []
     found = set()
-    for m in re.finditer(r'macro_rules! (\w+) \{(.*?)\n\}\n', src0, re.S):
+    # layout-independent: macro bodies and arms are delimited by matching brackets, not by line structure
+    for m in re.finditer(r'macro_rules!\s*(\w+)\s*\{', src0):
         name = m.group(1)
         if name not in CONSTRUCTION: continue
         found.add(name)
-        body = m.group(2)
-        for a in re.finditer(r'\n\s*\(([^\n]*)\) => \{(.*?)\n\s*\};', body, re.S):
-            arms.append(parse_arm(name, a.group(1), a.group(2)))
+        bend = match_close(src0, m.end() - 1)
+        body = src0[m.end():bend]
+        i = 0
+        while True:
+            i = skip_ws(body, i)
+            if i >= len(body): break
+            if body[i] != '(': raise ParseError('%s: arm does not start with a pattern: %r' % (name, body[i:i + 40]))
+            pe = match_close(body, i)
+            pat = ' '.join(body[i + 1:pe].split())
+            i = skip_ws(body, pe + 1)
+            if body[i:i + 2] != '=>': raise ParseError('%s: no => after pattern' % name)
+            i = skip_ws(body, i + 2)
+            if body[i] != '{': raise ParseError('%s: arm body is not braced' % name)
+            ce = match_close(body, i)
+            arms.append(parse_arm(name, pat, body[i + 1:ce]))
+            i = skip_ws(body, ce + 1)
+            if i < len(body) and body[i] == ';': i += 1
     missing = [n for n in CONSTRUCTION if n not in found]
     if missing: raise ParseError('macros not found: ' + ', '.join(missing))
     docs = {}
